@@ -349,6 +349,22 @@ static void ob_modes(H<T>& h)
         }
     }
     std::remove(file.c_str());
+    if (h.get("unit", 0) != 0)
+    {
+        // the answer (continue / stop) for a given checkpoint is the same in all four modes, for any target
+        T const t2 = w.h.input("target", 0.0, 1.0, true, false);
+        typename A::chk const one = A::run(w, std::vector<std::size_t>(calls.begin(), calls.begin() + 1), base, always_true<typename A::chk>());
+        bool answers[4];
+        for (int m = 0; m != 4; ++m)
+        {
+            cout_silencer quiet;
+            hep::callback<typename A::chk> cb(modes[m], file, t2);
+            answers[m] = cb(one);
+        }
+        std::remove(file.c_str());
+        std::remove((file + ".tmp").c_str());
+        h.check("C20|modes.decision_identical_in_all_four_modes", h.truth(answers[0] == answers[1] && answers[1] == answers[2] && answers[2] == answers[3]));
+    }
     for (int m = 1; m != 4; ++m)
         h.check("C20|modes.returned_checkpoint_identical_in_all_four_modes", texts_identical<T>(h, texts[0], texts[m]));
     h.check("C20|modes.silent_modes_print_nothing", h.truth(printed[0].empty() && printed[1].empty()));
